@@ -74,6 +74,13 @@ FIRST_MISSED = {
     "C15-7": "own property silent (reported by C16 RFULL source rule) -> C15 imports C16",
     "C05-7": "no check reported it -> WIN-3: every slot between base and top is retransmitted (no way round the transmission inside the resend loop)",
     "C05-8": "own property silent (reported by C15 TRUNC) -> C05 imports C15 and C19; C19 writer: the length prefix is not computed through a narrower integer",
+    "C04-8": "no check reported it -> PUBLISH/SIDFRESH: ConnData.SetRemote/SetAuthData store their argument on every successful return",
+    "C12-8": "no check reported it -> ONCE: no return of Close is reachable without passing closeOnce.Do",
+    "C03-8": "no check reported it -> HSK-SIB/SIDFRESH: every machine is configured with cfg.ConnData.HandshakePattern() (no other source), and that returns XX exactly while no remote key is stored",
+    "C17-7": "own property silent (reported by C04 PUBLISH, C11 SIDFRESH) -> C17 shares the DoHandshake publication guard (negotiated version >= 2)",
+    "C07-8": "own property silent (reported by C01/C09 ORD-1) -> C07 shares ORD-1",
+    "C13-7": "no check reported it -> KA-2: the ping timer is restarted in the send goroutine only inside the arming sequence of a ping leg",
+    "C13-8": "no check reported it -> KA-5: WithKeepalivePing is an argument of the single (list-replacing) WithTimeoutOptions call",
     "C06-3": "no check reported it -> RATELIMIT: once lastResend is refreshed the packets are transmitted",
 }
 
